@@ -35,6 +35,8 @@ class Handles:
             return ("ping",)
         if obj == ("attr", SELF, "connReq"):
             return ("conn",)
+        if isinstance(obj, tuple) and obj and obj[0] == "maybe":
+            return self.obj_location(obj[1], tr)       # dict.get(key[, default]): the entry, if present
         if isinstance(obj, tuple) and obj:
             if obj[0] in ("elem", "popped"):
                 if obj[1] in TIMED:
